@@ -2,7 +2,7 @@
    (hence for the executed Qc instance and for the real instance the analysis talks about).
    [slow_code*] are the definitions translated from the python source on this run (gen/InterpGen.v);
    [fast_code*] the hand model of the vectorised `__call__` (InterpFast.v). *)
-From Coq Require Import ZArith Bool Ring Lia List.
+From Coq Require Import ZArith Bool Ring Field Lia List.
 Require Import PV.Num PV.TNum PV.InterpFast PV.gen.InterpGen.
 Import ListNotations.
 Local Open Scope list_scope.
@@ -20,8 +20,9 @@ Section Generic.
   Notation "x <? y" := (nltb T x y).
   Notation "x <=? y" := (nleb T x y).
 
-  Let rt : ring_theory 0 1 (nadd T) (nmul T) (nsub T) (nopp T) eq := tl_ring T L.
-  Add Ring TRing : rt.
+  Infix "/" := (ndiv T).
+  Let ft : field_theory 0 1 (nadd T) (nmul T) (nsub T) (nopp T) (ndiv T) (ninv T) eq := tl_field T L.
+  Add Field TField : ft.
   Let O := tl_order T L.
   Let Zm := tl_ofZ T L.
 
@@ -114,13 +115,29 @@ Section Generic.
   Lemma nabs_neg a : a <? 0 = true -> nabs a = - a.
   Proof. intro H. unfold nabs. rewrite H. reflexivity. Qed.
 
+  (* positivity of literals: the structures have characteristic 0 *)
+  Lemma pos_neq a : 0 <? a = true -> a <> 0.
+  Proof. intros H E. rewrite E, (ord_irrefl _ O) in H. discriminate. Qed.
+  Lemma pos_add a b : 0 <? a = true -> 0 <? b = true -> 0 <? (a + b) = true.
+  Proof.
+    intros Ha Hb. apply (ord_trans _ O) with b; auto.
+    replace b with (0 + b) at 1 by ring. apply (ord_add _ O); auto.
+  Qed.
+  Lemma pos_mul a b : 0 <? a = true -> 0 <? b = true -> 0 <? (a * b) = true.
+  Proof. apply (ord_mul _ O). Qed.
+  Lemma pos_1 : 0 <? 1 = true.
+  Proof. apply (ord_0_1 _ O). Qed.
+
   Ltac lits := rewrite ?ofZ_phi; cbn [phiZ phiP].
+  Ltac nz := apply pos_neq; repeat first [apply pos_add | apply pos_mul | apply pos_1].
+  (* algebraic identities between polynomial / rational expressions with literal coefficients *)
+  Ltac alg := unfold nofQ, npow; lits; first [ring | (field; repeat split; nz)].
 
   (* ---------------------------------------------------------------------------------------- *)
   Theorem fast_eq_slow_0 lo nom hi alpha : fast_code0 T lo nom hi alpha = slow_code0 T lo nom hi alpha.
   Proof.
     unfold fast_code0, canon, fast0_cell, slow_code0. cbv zeta. rewrite nz_if.
-    lits. destruct (0 <? alpha); ring.
+    lits. destruct (0 <? alpha); alg.
   Qed.
 
   Theorem fast_eq_slow_1 lo nom hi alpha : fast_code1 T lo nom hi alpha = slow_code1 T lo nom hi alpha.
@@ -140,9 +157,9 @@ Section Generic.
     rewrite !(ord_leb _ O).
     destruct (nofZ T 1 <? alpha) eqn:E1; destruct (alpha <? nofZ T (-1)) eqn:E2; cbn [negb andb].
     - destruct (not_both _ _ _ m1_lt_1 E2 E1).
-    - unfold nofQ. lits. ring.
-    - unfold nofQ. lits. ring.
-    - unfold nofQ. lits. ring.
+    - alg.
+    - alg.
+    - alg.
   Qed.
 
   Theorem fast_eq_slow_4p lo nom hi alpha : fast_code4p T lo nom hi alpha = slow_code4p T lo nom hi alpha.
@@ -150,9 +167,9 @@ Section Generic.
     unfold fast_code4p, canon, fast4p_cell, slow_code4p. cbv zeta. rewrite !nz_if.
     destruct (nofZ T 1 <? alpha) eqn:E1; destruct (alpha <? nofZ T (-1)) eqn:E2.
     - destruct (not_both _ _ _ m1_lt_1 E2 E1).
-    - ring.
-    - ring.
-    - unfold nofQ, npow. lits. ring.
+    - alg.
+    - alg.
+    - alg.
   Qed.
 
   (* code 4: the typed-in matrix of the vectorised class is the one of the scalar reference *)
